@@ -5,6 +5,7 @@
 #include "util.h"
 
 static const u32 ILL = 0x80000000u;
+static const u32 ILL_TAIL = 0x00800000u;   // with ILL: a policy-ambiguous form, emitted only when it is the last item (UTF-8)
 static inline bool is_ill(u32 it) { return (it & ILL) != 0; }
 static inline u32 sanitize_item(u32 it) {
     if (is_ill(it)) return it;
@@ -29,7 +30,7 @@ static inline void encode_text(const std::vector<u32> &items_in, int enc, Encode
     out.enc = enc; out.buf.clear(); out.expect_usv.clear(); out.expect_base.clear();
     std::vector<u32> units;
     bool prev_open = false; // previous item ended in a lead/high-surrogate that a following continuation/low would complete
-    for (u32 raw : items_in) {
+    for (const u32 &raw : items_in) {
         u32 it = sanitize_item(raw);
         out.expect_base.push_back(units.size());
         if (!is_ill(it)) {
@@ -45,8 +46,20 @@ static inline void encode_text(const std::vector<u32> &items_in, int enc, Encode
             prev_open = false;
             continue;
         }
-        u32 n = it & 0x00FFFFFF;
+        u32 n = it & 0x007FFFFF;
         out.expect_usv.push_back(0xFFFD);
+        if ((it & ILL_TAIL) && enc == 1 && &raw == &items_in.back()) {
+            // ill-formed forms on whose *length* decoding policies disagree (never-valid lead bytes, over-long forms,
+            // values above U+10FFFF): only as the very last character, where every policy yields U+FFFD at this offset
+            u32 k = n % 5, m = n / 5; u8 c1 = u8(0x80 + (m & 0x3F)), c2 = u8(0x80 + ((m >> 6) & 0x3F)), c3 = u8(0x80 + ((m >> 12) & 0x3F));
+            if (k == 0) { units.push_back(0xF8 + (m & 7)); units.push_back(c1); units.push_back(c2); units.push_back(c3); }
+            else if (k == 1) { units.push_back(0xC0 + (m & 1)); units.push_back(c2); }
+            else if (k == 2) { units.push_back(0xE0); units.push_back(0x80 + (m & 0x1F)); units.push_back(c2); }
+            else if (k == 3) { units.push_back(0xF0); units.push_back(0x80 + (m & 0x0F)); units.push_back(c2); units.push_back(c3); }
+            else { if (m & 1) { units.push_back(0xF4); units.push_back(0x90 + ((m >> 1) & 0x2F)); } else { units.push_back(0xF5 + ((m >> 1) % 3)); units.push_back(c1); } units.push_back(c2); units.push_back(c3); }
+            prev_open = false;
+            continue;
+        }
         if (enc == 4) { units.push_back(0x110000u + (n * 2654435761u) % 0xFFEE0000u); prev_open = false; }
         else if (enc == 2) {
             bool low = (n & 1) && !prev_open;      // a lone low surrogate must not follow a lone high one
